@@ -65,6 +65,12 @@ unsigned g_calls = 0;
 // consumed - what libstdc++'s codecvt<wchar_t,char,mbstate_t>::do_in does on glibc (mbsnrtowcs keeps the partial character
 // in mbstate_t); the caller can see it through std::mbsinit(&state) == 0
 bool g_absorb = false;
+// libstdc++'s do_out / do_in (codecvt_members.cc: `while (from_next < from_end && to_next < to_end && ret == ok)`) return `ok`
+// WITHOUT any progress when they are called with an EMPTY output range and input is left (natively, C.UTF-8:
+// out(L"\u00e9a", room 0) -> ok, consumed 0, written 0; in("\xc3\xa9" "a", room 0) -> ok, consumed 0).  With g_empty_ok the
+// model facet does the same, exactly there; the flag is a symbolic input of every harness, so both behaviours are explored.
+// A caller must therefore never trust `ok` alone: the oracles below always demand the conversion of the WHOLE input.
+bool g_empty_ok = false;
 
 struct model_facet : base
 {
@@ -73,6 +79,7 @@ struct model_facet : base
                 char *const to_end, char *&to_next) const override
   {
     ++g_calls;
+    if (to == to_end && from != from_end && g_empty_ok) { from_next = from; to_next = to; return ok; }
     wchar_t const *f{from};
     char *t{to};
     result r{ok};
@@ -92,6 +99,7 @@ struct model_facet : base
                wchar_t *const to_end, wchar_t *&to_next) const override
   {
     ++g_calls;
+    if (to == to_end && from != from_end && g_empty_ok) { from_next = from; to_next = to; return ok; }
     char const *f{from};
     wchar_t *t{to};
     result r{ok};
@@ -159,6 +167,7 @@ struct narrow_case
 narrow_case make_narrow()
 {
   narrow_case c{};
+  g_empty_ok = verif_u8("empty_ok") != 0;
   c.n = static_cast<unsigned>(verif_param("n"));
   for (unsigned i = 0; i < c.n; ++i) c.in[i] = static_cast<wchar_t>(verif_u32("c"));
   // reference: the concatenation of the encodings, or failure at the first character without an encoding
@@ -191,6 +200,30 @@ void narrow()
   verif_reach("narrow-end");
 }
 
+// the converted prefix fills the initial write area (= number of input units) EXACTLY and more input follows: the first k
+// characters encode to n units in total, k < n; the next facet call then sees an empty or freshly grown write area
+void narrow_exact()
+{
+  narrow_case const c{make_narrow()};
+  unsigned const k{static_cast<unsigned>(verif_param("k"))};
+  unsigned sum{0};
+  for (unsigned i = 0; i < k; ++i) sum += out_len(c.in[i]);
+  verif_assume(!c.fail && sum == c.n);
+  verif_assume(g_empty_ok);
+  verif_reach("prefix-fills-write-area-exactly");
+  env const e{};
+  fcppt::optional_std_string const r{fcppt::narrow_locale(std::wstring_view{c.in, c.n}, e.locale())};
+  verif_out("calls", g_calls);
+  verif_assert(r.has_value(), "narrow_locale (prefix fills the write area exactly): succeeds");
+  if (r.has_value())
+  {
+    std::string const &s{r.get_unsafe()};
+    verif_assert(s.size() == c.elen, "narrow_locale (prefix fills the write area exactly): the result is complete, nothing after the prefix is dropped");
+    if (s.size() == c.elen)
+      for (unsigned j = 0; j < c.elen; ++j) verif_assert(s[j] == c.expect[j], "narrow_locale (prefix fills the write area exactly): the result is the concatenation of the encodings");
+  }
+}
+
 struct widen_case
 {
   char in[maxn];
@@ -203,6 +236,7 @@ struct widen_case
 widen_case make_widen()
 {
   widen_case c{};
+  g_empty_ok = verif_u8("empty_ok") != 0;
   c.n = static_cast<unsigned>(verif_param("n"));
   for (unsigned i = 0; i < c.n; ++i) c.in[i] = static_cast<char>(verif_u8("b"));
   // reference: decode sequence by sequence; an invalid lead unit or an input ending inside a sequence has no complete result
@@ -271,11 +305,13 @@ extern "C" void verif_facet_dtor(void *) {}
 #endif
 
 VERIF_HARNESS(h_narrow) { narrow(); }
+VERIF_HARNESS(h_narrow_exact) { narrow_exact(); }
 VERIF_HARNESS(h_widen_impl) { widen_impl(false); }
 VERIF_HARNESS(h_widen_absorb) { widen_impl(true); }
 VERIF_HARNESS(h_widen_ok) { widen_ok(); }
 VERIF_HARNESS(h_widen_fail) { widen_fail(); }
 //@harness h_narrow param n=0..3 tier=quick loop=40
+//@harness h_narrow_exact param n=2..4 param k=1..3 if k<n tier=quick loop=40
 //@harness h_widen_impl param n=0..3 tier=quick loop=40
 //@harness h_widen_absorb param n=1..3 tier=quick loop=40
 //@harness h_widen_ok param n=0..3 tier=quick loop=40
